@@ -139,6 +139,10 @@ func checkC15(p *Prog, r *Report) {
 			_ = okb
 			r.Check(same && p.isConnParam(hc, ac.Args[0]), "first frame and connection handed to AddConn", p.Pos(ac.Pos()), "AddConn(conn, buf) with the buffer the frame was read into", "AddConn does not receive the accepted connection together with the frame that was read from it: the first Binding request is lost")
 		}
+		// the frame is read from the very connection that is attached (no read-ahead wrapper in between)
+		for _, rc := range p.CallsTo(hc, false, "ice.readStreamingPacket") {
+			r.Check(len(rc.Args) == 2 && p.isConnParam(hc, rc.Args[0]), "first frame read from the accepted connection itself", p.Pos(rc.Pos()), "readStreamingPacket(conn, buf)", "the first frame is read through something other than the accepted connection while the connection itself is attached: bytes a wrapper read ahead (pipelined frames) are lost and the stream is mis-framed")
+		}
 		// deadline armed before the read whenever the timeout is positive, cleared before attaching
 		rd := p.CallsTo(hc, false, "ice.readStreamingPacket")
 		if len(rd) == 1 {
